@@ -241,11 +241,12 @@ func CSVProducer(opts ...CSVOpt) Producer {
 			})
 
 			pipe.Go(func() error {
-				defer func() {
-					_ = r.Close()
-				}()
+				err := pipeCSV(csvWriter, csvReader, o)
+				// hand our error to a WriteTo that is still writing: whichever goroutine
+				// finishes first, the error reported is the one that stopped the piping
+				_ = r.CloseWithError(err)
 
-				return pipeCSV(csvWriter, csvReader, o)
+				return err
 			})
 
 			return pipe.Wait()
